@@ -2,7 +2,7 @@
    and returns {"decoded": bool, "violations": [{"rule","idx","a","b","op"}], "stats": {...}}. *)
 From Coq Require Import List ZArith String.
 Import ListNotations.
-Require Import Naga.Base.Json Naga.Spv.Binary Naga.Spv.Validate Naga.Spv.ValidateMain.
+Require Import Naga.Base.Json Naga.Spv.Binary Naga.Spv.Validate Naga.Spv.ValidateMain Naga.Spv.SpvTies.
 Require Extraction.
 Require Import ExtrOcamlBasic.
 Open Scope string_scope.
@@ -15,7 +15,25 @@ Definition jviolation (is : list instr) (v : violation) : json :=
   JObj [("rule", JStr (v_rule v)); ("idx", JNum (v_idx v)); ("a", JNum (v_a v)); ("b", JNum (v_b v));
         ("op", JNum (op_at is (v_idx v)))].
 
+(* {"consts": [[go type, name, value]...]} -> constants of spirv.go that differ from the specification *)
+Definition const_row (j : json) : option (string * string * Z) :=
+  match j with
+  | JArr [JStr t; JStr n; JNum v] => Some (t, n, v)
+  | _ => None
+  end.
+Definition entry_consts (l : list json) : json :=
+  match map_opt const_row l with
+  | None => JObj [("error", JStr "bad consts table")]
+  | Some rows =>
+    JObj [("mismatches", JArr (map (fun m => match m with (t, n, v, s) =>
+                                      JObj [("type", JStr t); ("name", JStr n); ("naga", JNum v); ("spec", JNum s)] end)
+                                   (const_mismatches rows)));
+          ("unknown", JArr (flat_map (fun r => match r with (t, n, _) =>
+                                        match spec_value t n with Some _ => [] | None => [JStr n] end end) rows))]
+  end.
+
 Definition entry (j : json) : json :=
+  match field_arr "consts" j with Some l => entry_consts l | None =>
   match nums j with
   | None => JObj [("decoded", JBool false); ("error", JStr "input is not an array of numbers")]
   | Some ws =>
@@ -30,5 +48,5 @@ Definition entry (j : json) : json :=
                             ("blocks", JNum (st_blocks st)); ("ids", JNum (st_ids st));
                             ("version", JNum (vmm (fst m)))])]
     end
-  end.
+  end end.
 Extraction "model.ml" entry.
